@@ -5,6 +5,7 @@ import (
 	"math"
 	"math/big"
 	"sort"
+	"strings"
 	"time"
 
 	"github.com/remieven/ysgo/variable"
@@ -19,7 +20,7 @@ func init() {
 			Property: "C19",
 			Rule: "a structured finite alphabet of doubles, every member of which is tried: every x = +-m*2^e with m < 2^15 (quick) / 2^20 (thorough), e in [-12,51], |x| < 2^52; every integer k in [-1100,1100] with k+-1/2 and the doubles adjacent to each; +-0; every k/10^p (|k|<=2000, p<=4) with its neighbours; 2^j and 2^j+-1 with neighbours for j<=51; " +
 				"for each x the built-ins floor, ceil, inc, dec, integer, decimal, round, number(string(x)) and round_places(x,n) for n in 0..8 are evaluated by the real runner in one looping script ($x supplied through a harness storer; floor, ceil, round and integer are called a second time in the same argument list on $y = x+1.5) and captured typed by a host function; " +
-				"oracle: the inequalities of the property in exact rational arithmetic (math/big), integrality by big.Float.IsInt; round_places is granted one ulp of x plus one ulp of the result; conversions over booleans, numbers and a list of strings; " +
+				"oracle: the inequalities of the property in exact rational arithmetic (math/big), integrality by big.Float.IsInt; round_places is granted one ulp of x plus one ulp of the result; conversions over booleans, numbers and a list of strings, each alone on a fresh runner and every ordered pair of them alternating on one runner (E1 E2 E1 E2: the same answer every time, whatever was converted or refused before); " +
 				"a case is one x (all built-ins); non-trivial = x is not an integer",
 			StatesMean:  "distinct numbers x tried; transitions = real Next calls (one per x, evaluating 18 built-in calls)",
 			Assumptions: []string{"numbers outside the structured alphabet are not covered (no random bit patterns: sampling is not used)", "round_places: half-unit bound plus one ulp of x plus one ulp of the result (neither is a decimal in general)", "strings whose status as number / boolean is debatable (\" 1\", \"1e3\", \"1\" as boolean, \"TRUE\") are not constrained"},
@@ -298,6 +299,64 @@ func runC19(ctx *report.Ctx) {
 		{`bool("")`, nil, true}, {`bool("abc")`, nil, true}, {`bool("yes")`, nil, true}, {`bool("2.5")`, nil, true}, {`bool("maybe")`, nil, true},
 		{`number(" 1")`, nil, false}, {`number("1e3")`, nil, false}, {`bool("1")`, nil, false}, {`bool("TRUE")`, nil, false}, {`number(true)`, nil, false}, {`bool(1)`, nil, false}, {`string(1.5)`, sv("1.5"), false}, {`string(3)`, sv("3"), false}, {`string(true)`, sv("True"), false},
 	}
+	// CONV2: two conversions alternating on one runner, each evaluated twice (E1 E2 E1 E2): what a conversion yields - a
+	// value or an error - does not depend on what was converted (or refused) before, nor on how often
+	convs2 := append(append([]conv{}, convs...),
+		conv{`string("ab") + "c"`, sv("abc"), false}, conv{`"c" + string("ab")`, sv("cab"), false}, conv{`string("ab") + string("ab")`, sv("abab"), false},
+		conv{`number(2) + 1`, nv(3), false}, conv{`number("2") * number("2")`, nv(4), false}, conv{`string(number("12"))`, sv("12"), false}, conv{`bool(string(bool("true")))`, bv(true), false})
+	part(ctx, "CONV2", -1, func(c *explore.Chooser) {
+		i1 := c.Choose(len(convs2), "first")
+		if !c.Mine() {
+			return
+		}
+		i2 := c.Choose(len(convs2), "second")
+		pair := []conv{convs2[i1], convs2[i2]}
+		var b strings.Builder
+		b.WriteString("title: A\n---\n")
+		for k := 0; k < 4; k++ {
+			b.WriteString("<<call cap(" + pair[k%2].expr + ")>>\nm\n")
+		}
+		b.WriteString("===\n")
+		w := fmt.Sprintf("conversions in a row: %s, %s, %s, %s", pair[0].expr, pair[1].expr, pair[0].expr, pair[1].expr)
+		ctx.Current("CONV2: " + w)
+		r, err, pan := yc.NewReal([]string{b.String()}, "abc", nil)
+		if err != nil || pan != "" {
+			ctx.HarnessError("C19: harness script does not load: %v %s\n%s", err, pan, b.String())
+			return
+		}
+		var got []yc.Value
+		r.DR.AddFunction("cap", func(args []*variable.Value) (*variable.Value, error) { got = yc.RealArgs(args); return nil, nil })
+		ctx.AddEvals(1, 1)
+		ctx.AddStates(1)
+		for k := 0; k < 4; k++ {
+			cv := pair[k%2]
+			got = nil
+			ro := r.Next(0)
+			ctx.AddTransitions(1)
+			if ro.Panic != "" {
+				ctx.Violation(report.Violation{Clause: "conversion-failed", Witness: w, Detail: fmt.Sprintf("evaluation %d (%s) panicked: %s", k+1, cv.expr, ro.Panic), Choices: c.Choices(), Part: "CONV2"})
+				return
+			}
+			isErr := ro.K == yc.OError
+			if isErr {
+				ro = r.Next(0)
+				ctx.AddTransitions(1)
+			}
+			if ro.K != yc.OLine || ro.Text != "m" {
+				ctx.Violation(report.Violation{Clause: "conversion-failed", Witness: w, Detail: fmt.Sprintf("after evaluation %d (%s) the dialogue does not go on with the next line: %s", k+1, cv.expr, ro.String()), Choices: c.Choices(), Part: "CONV2"})
+				return
+			}
+			ctx.Outcome(fmt.Sprintf("%s err=%v %v", cv.expr, isErr, got))
+			switch {
+			case cv.err && (!isErr || got != nil):
+				ctx.Violation(report.Violation{Clause: "conversion-not-an-error", Witness: w, Detail: fmt.Sprintf("evaluation %d: %s must be an error (a string that is not a number / boolean); got %v", k+1, cv.expr, got), Choices: c.Choices(), Part: "CONV2"})
+				return
+			case cv.want != nil && (isErr || len(got) != 1 || !got[0].Equal(*cv.want)):
+				ctx.Violation(report.Violation{Clause: "conversion-value", Witness: w, Detail: fmt.Sprintf("evaluation %d: %s: expected %s, got %v (error %v)", k+1, cv.expr, cv.want, got, isErr), Choices: c.Choices(), Part: "CONV2"})
+				return
+			}
+		}
+	})
 	part(ctx, "CONV", -1, func(c *explore.Chooser) {
 		cv := convs[c.Choose(len(convs), "conversion")]
 		if !c.Mine() {
